@@ -1,4 +1,97 @@
-import CacheVerif.Spec.AMap
+import CacheVerif.Proofs.ProtoData
+import CacheVerif.Proofs.SlotMapHindsight
+import CacheVerif.Props.C11
+/-!
+# C03 — `Map` (string keys) is linearizable, also across grow, shrink and Clear
+
+Mechanised parts (all schedules, any number of goroutines):
+* **slot level (M4b, `Model.SlotMap`)**: the lock-free three-read atomic snapshot of `Load` returns the logical
+  content of its key at some instant inside the call, whatever legal micro-stores the lock holder interleaves
+  (`C03_reader_hindsight`); it can therefore be replaced by one atomic read — never a value stored under
+  another key, never a mix of two writes; the slot representation invariant is preserved by every writer
+  micro-step (`C03_slot_invariant`);
+* **protocol level (M4a, `Model.Proto`)**: mutual exclusion of bucket locks, resize flag and wake-up protocol
+  (`Props/C13`), and — when `Proofs/ProtoData.lean` is present in the tree — "a grow/shrink publishes a table with
+  exactly the same bindings" and "the abstract content changes only at a writer's commit on the current table
+  and at Clear's publish";
+* **sequential level (M3)**: `Map` refines the builtin map for every hash/seed/hint/history (`Props/C11`).
+Every protocol-level trace of the real code under the cooperative scheduler is a run of M4a (trace
+correspondence), and every explored history of the real `Map` is judged by the Lean linearizability checker.
+**Partial**: the composition of these layers into one linearizability theorem for M4a (helping step of `Clear` for
+writers that are past their checks, reader hindsight across table generations) is argued in DESIGN.md §4.3, not
+mechanised.
+-/
 namespace Props.C03
-theorem placeholder : True := trivial
+open Model.SlotMap Proofs.SlotMapHindsight
+
+variable {K V : Type} [DecidableEq K] (top : K → Nat)
+
+/-- **the lock-free `Load` is atomic**: its result was the chain's logical content for its key at some instant
+between the start of the lookup and its end — for every interleaving with the lock holder's micro-stores
+(insert: word, value, key; delete: word, value, key; update: value; append), slot reuse included -/
+theorem C03_reader_hindsight (k0 : K) (pre mid : List (Act K V)) (t : Tid) (k : K) (s : St K V)
+    (hns : ∀ a ∈ mid, ∀ k', a ≠ Act.start t k')
+    (hrun : run top (init k0) (pre ++ [Act.start t k] ++ mid) = some s)
+    (hdone : (s.r t).pc = .done) :
+    ∃ j, j ≤ mid.length ∧ ∃ s', run top (init k0) (pre ++ [Act.start t k] ++ mid.take j) = some s' ∧
+      content top s'.g k = (s.r t).result :=
+  reader_hindsight top k0 pre mid t k s hns hrun hdone
+
+/-- the slot representation invariant (unique value pointers, one slot per key, exact partial states of the slot
+under update) holds in every reachable chain state -/
+theorem C03_slot_invariant (k0 : K) (as : List (Act K V)) (s : St K V) (h : run top (init k0) as = some s) :
+    RI top s.g :=
+  ri_run top as _ s (ri_init top k0) h
+
+/-- a reader running alone (writer stalled anywhere, even in the middle of its micro-stores) finishes within
+`(3·S+2)·(chain length+1)` of its own steps and returns the current logical content -/
+theorem C03_solo_reader (g : G K V) (k : K) (ri : RI top g) :
+    ∃ n, n ≤ (3 * S + 2) * (g.buckets.length + 1) ∧
+      (soloReader top g { key := k, pc := .rdWord 0, result := none } n).pc = .done ∧
+      (soloReader top g { key := k, pc := .rdWord 0, result := none } n).result = content top g k := by
+  obtain ⟨n, hn, hd⟩ := solo_terminates top g k
+  exact ⟨n, hn, hd, solo_result_any top g k ri n hd⟩
+
+/-! ### protocol level (M4a): what a resize and a commit do to the abstract content -/
+section proto
+open Model.Proto Proofs.ProtoData
+variable {K V : Type} [DecidableEq K] (p : Params K)
+
+/-- **no entry is lost, duplicated or resurrected by a concurrent grow or shrink**: publishing the new table does
+not change what lookups see — for every schedule, with writers racing the bucket-by-bucket copy -/
+theorem C03_resize_preserves_content (hmin : 0 < p.minLen) (s : Model.Proto.St K V) (h : Reach p s) (t : Model.Proto.Tid)
+    (c : Choice K V) (g' : Model.Proto.G K V) (l' : L K V)
+    (hpc : (s.l t).pc = .rzPublish) (hh : (s.l t).hint ≠ .clear) (hs : tstep p t s.g (s.l t) c = some (g', l')) :
+    ∀ k, absGet g' k = absGet s.g k :=
+  publish_preserves_abs p hmin s h t c g' l' hpc hh hs
+
+/-- **the content changes only at a writer's commit on the current table, or at Clear's publish** (no other step of
+any thread — copy, retry, wait, Range, a commit into a retired table — is visible to lookups) -/
+theorem C03_content_changes_only_at_commit_or_clear (hmin : 0 < p.minLen) (s : Model.Proto.St K V) (h : Reach p s)
+    (t : Model.Proto.Tid) (c : Choice K V) (g' : Model.Proto.G K V) (l' : L K V)
+    (hs : tstep p t s.g (s.l t) c = some (g', l')) (hne : ∃ k, absGet g' k ≠ absGet s.g k) :
+    ((s.l t).pc = .dcCommit ∧ (s.l t).tbl = s.g.cur) ∨ ((s.l t).pc = .rzPublish ∧ (s.l t).hint = .clear) :=
+  abs_changes_only_at_commit_or_clear p hmin s h t c g' l' hs hne
+
+/-- a commit touches only the key of its call (no cross-key effect) -/
+theorem C03_commit_changes_only_its_key (t : Model.Proto.Tid) (g : Model.Proto.G K V) (l : L K V) (c : Choice K V)
+    (g' : Model.Proto.G K V) (l' : L K V) (hpc : l.pc = .dcCommit) (hs : tstep p t g l c = some (g', l')) :
+    ∀ k', some k' ≠ opKey l → absGet g' k' = absGet g k' :=
+  commit_changes_only_key p t g l c g' l' hpc hs
+
+/-- **once Clear's publish step has happened nothing stored before remains** -/
+theorem C03_clear_empties (hmin : 0 < p.minLen) (s : Model.Proto.St K V) (h : Reach p s) (t : Model.Proto.Tid)
+    (c : Choice K V) (g' : Model.Proto.G K V) (l' : L K V)
+    (hpc : (s.l t).pc = .rzPublish) (hh : (s.l t).hint = .clear) (hs : tstep p t s.g (s.l t) c = some (g', l')) :
+    ∀ k, absGet g' k = none :=
+  clear_publish_empties p hmin s h t c g' l' hpc hh hs
+
+/-- while a grow/shrink copies, no writer that is past its re-checks holds a bucket that was already copied -/
+theorem C03_no_writer_in_copied_bucket (hmin : 0 < p.minLen) (s : Model.Proto.St K V) (h : Reach p s)
+    (r u : Model.Proto.Tid) (c : Nat) (hc : copyC (s.l r) = some c) (hp : pastChk (s.l u).pc = true)
+    (ht : (s.l u).tbl = (s.l r).rtbl) : c ≤ (s.l u).bi :=
+  (no_writer_in_copied_bucket p hmin s h r u c hc hp ht).1
+
+end proto
+
 end Props.C03
